@@ -195,6 +195,10 @@ func c05CheckM(m mapperT, c mapCase) error {
 		if b >= 1<<24 {
 			return fmt.Errorf("%s PakAddressToBus($%06X) = $%X is not a 24-bit bus address", c.Mapper, a, b)
 		}
+		// the bus address it names belongs to the same memory class (a ROM cell is never placed on WRAM or SRAM bus space)
+		if p2, e2 := m.b2p(b); e2 != nil || pakClass(p2) != pakClass(a) {
+			return fmt.Errorf("%s PakAddressToBus($%06X) = $%06X, which the bus decoding treats as ($%06X %s, %v) although the pak address is %s", c.Mapper, a, b, p2, pakClass(p2), e2, pakClass(a))
+		}
 		page := a &^ 0x1FFF
 		if page >= 0xF00000 && page <= 0xF4FFFF {
 			return nil
